@@ -225,6 +225,7 @@ void rt_free (void *p) {
 	memset (b->p, 0xDD, b->n);
 }
 int rt_is_freed (const void *p) { struct blk *b = find_blk (p); return b && b->freed; }
+int rt_block_owner (const void *p) { struct blk *b = find_blk (p); return b ? b->owner : -1; }
 long rt_malloc_count (void) { return G->malloc_count; }
 void rt_fail_malloc_at (long k) { G->fail_at = k ? G->malloc_count + k : 0; }
 
